@@ -972,3 +972,168 @@ func literalField(recv ssa.Value, i int) ssa.Value {
 	}
 	return nil
 }
+
+// ---------------------------------------------------------------- deep search / value origins across helper calls
+
+// Found is an instruction located by DeepFind together with the chain of helper calls leading to it
+// (outermost first; empty when the instruction is in the root function itself).
+type Found struct {
+	Ins   ssa.Instruction
+	Stack []*ssa.Call
+}
+
+// followable: a static callee whose body the deep analyses descend into - an unexported repo function
+// or method that is not recursive along the current stack.
+func followable(p *Prog, g *ssa.Function, stack []*ssa.Call) bool {
+	if g == nil || !p.InRepo(g) || len(g.Blocks) == 0 || g.Parent() != nil {
+		return false
+	}
+	if o := g.Object(); o == nil || o.Exported() {
+		return false
+	}
+	if len(stack) >= 4 {
+		return false
+	}
+	for _, s := range stack {
+		if Callee(&s.Call) == g {
+			return false
+		}
+	}
+	return true
+}
+
+// DeepFind returns the instructions satisfying pred in root and in the unexported helpers it calls
+// (transitively, each reached call chain separately).
+func DeepFind(p *Prog, root *ssa.Function, pred func(ssa.Instruction) bool) []Found {
+	var out []Found
+	var walk func(f *ssa.Function, stack []*ssa.Call)
+	walk = func(f *ssa.Function, stack []*ssa.Call) {
+		Instrs(f, func(ins ssa.Instruction) {
+			if pred(ins) {
+				out = append(out, Found{ins, append([]*ssa.Call{}, stack...)})
+			}
+			if call, ok := ins.(*ssa.Call); ok {
+				if g := Callee(&call.Call); followable(p, g, stack) {
+					walk(g, append(append([]*ssa.Call{}, stack...), call))
+				}
+			}
+		})
+	}
+	walk(root, nil)
+	return out
+}
+
+// Up expresses a value of the innermost frame of stack in the outermost frame possible: a parameter of
+// the innermost helper becomes the argument of the call that entered it, and so on. It returns the
+// value and the remaining stack (the frame the value lives in).
+func Up(v ssa.Value, stack []*ssa.Call) (ssa.Value, []*ssa.Call) {
+	for i := 0; i < 12; i++ {
+		v = Resolve(v)
+		prm, ok := v.(*ssa.Parameter)
+		if !ok || len(stack) == 0 {
+			return v, stack
+		}
+		top := stack[len(stack)-1]
+		g := Callee(&top.Call)
+		if g == nil || prm.Parent() != g {
+			return v, stack
+		}
+		idx := -1
+		for k, q := range g.Params {
+			if q == prm {
+				idx = k
+			}
+		}
+		if idx < 0 || idx >= len(top.Call.Args) {
+			return v, stack
+		}
+		v, stack = top.Call.Args[idx], stack[:len(stack)-1]
+	}
+	return v, stack
+}
+
+// Leaf is a leaf a value can come from.
+type Leaf struct {
+	Val   ssa.Value
+	Stack []*ssa.Call
+}
+
+// Origins enumerates the leaves a value (living in the innermost frame of stack) can come from, looking
+// through phis (every edge), parameters of helpers (the argument of the entering call), results of
+// followable helper calls (every return case of the helper) and nil-merged variables.
+func Origins(p *Prog, v ssa.Value, stack []*ssa.Call) []Leaf {
+	var out []Leaf
+	seen := map[ssa.Value]bool{}
+	var walk func(v ssa.Value, stack []*ssa.Call, depth int)
+	walk = func(v ssa.Value, stack []*ssa.Call, depth int) {
+		v, stack = Up(v, stack)
+		if depth > 10 || (seen[v] && len(stack) == 0) {
+			if depth > 10 {
+				out = append(out, Leaf{v, stack})
+			}
+			return
+		}
+		seen[v] = true
+		switch x := v.(type) {
+		case *ssa.Phi:
+			for _, e := range x.Edges {
+				if e != ssa.Value(x) {
+					walk(e, stack, depth+1)
+				}
+			}
+			return
+		case *ssa.Extract:
+			if call, ok := x.Tuple.(*ssa.Call); ok {
+				if g := Callee(&call.Call); followable(p, g, stack) {
+					ns := append(append([]*ssa.Call{}, stack...), call)
+					for _, rc := range ReturnCases(g) {
+						if x.Index < len(rc.Vals) {
+							walk(rc.Vals[x.Index], ns, depth+1)
+						}
+					}
+					return
+				}
+			}
+		case *ssa.Call:
+			if g := Callee(&x.Call); followable(p, g, stack) && g.Signature.Results().Len() == 1 {
+				ns := append(append([]*ssa.Call{}, stack...), x)
+				for _, rc := range ReturnCases(g) {
+					walk(rc.Vals[0], ns, depth+1)
+				}
+				return
+			}
+		}
+		out = append(out, Leaf{v, stack})
+	}
+	walk(v, stack, 0)
+	return out
+}
+
+// DeepCount is PathCount over f where a call of a followable helper weighs what the helper's own paths
+// weigh (which must be the same on all of them, otherwise Many). skip is applied in every frame.
+func DeepCount(p *Prog, f *ssa.Function, pred func(ssa.Instruction) bool, skip func(*ssa.BasicBlock) bool) (min, max int) {
+	var weight func(stack []*ssa.Call) func(ssa.Instruction) int
+	weight = func(stack []*ssa.Call) func(ssa.Instruction) int {
+		return func(ins ssa.Instruction) int {
+			n := 0
+			if pred(ins) {
+				n++
+			}
+			if call, ok := ins.(*ssa.Call); ok {
+				if g := Callee(&call.Call); followable(p, g, stack) {
+					ns := append(append([]*ssa.Call{}, stack...), call)
+					mn, mx := PathCount(g, weight(ns), skip)
+					if mn != mx {
+						if mx > 0 {
+							return Many
+						}
+					} else if mn > 0 {
+						n += mn
+					}
+				}
+			}
+			return n
+		}
+	}
+	return PathCount(f, weight(nil), skip)
+}
